@@ -13,9 +13,9 @@ import (
 	nethttp "net/http"
 	"net/http/httptest"
 	"net/url"
+	"strings"
 	"sync"
 	"time"
-
 
 	"github.com/chihaya/chihaya/bittorrent"
 	httpfe "github.com/chihaya/chihaya/frontend/http"
@@ -35,6 +35,8 @@ type hkSpec struct {
 	K   string `json:"k"` // accept rejc reji skipswarm skipresp bump tag
 	Msg string `json:"msg,omitempty"`
 	D   int64  `json:"d,omitempty"`
+	// a rejecting hook may return a nil context with its error (the usual Go idiom); it is a rejection all the same
+	NilCtx bool `json:"nilctx,omitempty"`
 }
 
 func (h hkSpec) coq() string {
@@ -57,13 +59,19 @@ func (h hkSpec) coq() string {
 }
 
 type c12Log struct {
-	mu  sync.Mutex
-	evs []int64
+	mu    sync.Mutex
+	evs   []int64
+	muted bool // while the prelude request of an overlap case is being handled / post-processed
 }
+
+func (l *c12Log) mute(b bool) { l.mu.Lock(); l.muted = b; l.mu.Unlock() }
 
 func (l *c12Log) add(v int64) {
 	l.mu.Lock()
 	defer l.mu.Unlock()
+	if l.muted {
+		return
+	}
 	// consecutive store reads (resp. writes) of one hook invocation collapse into one event
 	if (v == 900 || v == 901) && len(l.evs) > 0 && l.evs[len(l.evs)-1] == v {
 		return
@@ -83,8 +91,14 @@ func (h *instrHook) act(ctx context.Context, bump func(time.Duration)) (context.
 	h.log.add(h.code)
 	switch h.spec.K {
 	case "rejc":
+		if h.spec.NilCtx {
+			return nil, bittorrent.ClientError(h.spec.Msg)
+		}
 		return ctx, bittorrent.ClientError(h.spec.Msg)
 	case "reji":
+		if h.spec.NilCtx {
+			return nil, errors.New("database exploded at 10.1.2.3:5432")
+		}
 		return ctx, errors.New("database exploded at 10.1.2.3:5432")
 	case "skipswarm":
 		return context.WithValue(ctx, middleware.SkipSwarmInteractionKey, true), nil
@@ -98,7 +112,10 @@ func (h *instrHook) act(ctx context.Context, bump func(time.Duration)) (context.
 	return ctx, nil
 }
 
-func (h *instrHook) HandleAnnounce(ctx context.Context, _ *bittorrent.AnnounceRequest, resp *bittorrent.AnnounceResponse) (context.Context, error) {
+func (h *instrHook) HandleAnnounce(ctx context.Context, req *bittorrent.AnnounceRequest, resp *bittorrent.AnnounceResponse) (context.Context, error) {
+	if req.InfoHash == c12IH2 {
+		return ctx, nil // the prelude request of an overlap case: the configured hooks let it pass untouched
+	}
 	return h.act(ctx, func(d time.Duration) { resp.Interval += d })
 }
 func (h *instrHook) HandleScrape(ctx context.Context, _ *bittorrent.ScrapeRequest, _ *bittorrent.ScrapeResponse) (context.Context, error) {
@@ -148,6 +165,9 @@ type syncLogic struct {
 	rejected bool // Handle* returned an error: no After* call is legitimate
 	log      *c12Log
 	done     chan struct{}
+	// overlap cases: the prelude request's post-processing is held until the measured request has been dealt with
+	holdGate chan struct{}
+	holdDone chan struct{}
 }
 
 func (l *syncLogic) enterAfter() {
@@ -160,6 +180,9 @@ func (l *syncLogic) enterAfter() {
 }
 
 func (l *syncLogic) HandleAnnounce(ctx context.Context, r *bittorrent.AnnounceRequest) (context.Context, *bittorrent.AnnounceResponse, error) {
+	if r.InfoHash == c12IH2 {
+		return l.Logic.HandleAnnounce(ctx, r)
+	}
 	c, resp, err := l.Logic.HandleAnnounce(ctx, r)
 	l.mu.Lock()
 	if err == nil {
@@ -171,6 +194,15 @@ func (l *syncLogic) HandleAnnounce(ctx context.Context, r *bittorrent.AnnounceRe
 	return c, resp, err
 }
 func (l *syncLogic) AfterAnnounce(ctx context.Context, r *bittorrent.AnnounceRequest, resp *bittorrent.AnnounceResponse) {
+	if l.holdGate != nil && r.InfoHash == c12IH2 {
+		// NB the request is identified when the hook STARTS; what it applies is read after the gate opens
+		defer func() { _ = recover(); l.holdDone <- struct{}{} }()
+		<-l.holdGate
+		l.log.mute(true)
+		l.Logic.AfterAnnounce(ctx, r, resp)
+		l.log.mute(false)
+		return
+	}
 	defer func() { _ = recover(); l.done <- struct{}{} }()
 	l.enterAfter()
 	l.Logic.AfterAnnounce(ctx, r, resp)
@@ -213,11 +245,19 @@ func (l *syncLogic) wait() bool {
 }
 
 var c12IH = bittorrent.InfoHashFromBytes([]byte("c12-infohash-0123456"))
+var c12IH2 = bittorrent.InfoHashFromBytes([]byte("c12-prelude-ih-65432"))
 
 const c12Key = "c12-private-key"
 const c12Now = int64(1_700_000_000_000_000_000)
 
 func c12Run(o *Out, kind string, via int, scrape bool, pre, post []hkSpec, baseSec int64) {
+	c12RunO(o, kind, via, scrape, pre, post, baseSec, false)
+}
+
+// overlap (UDP announces only): another client's accepted announce (another swarm; the configured hooks let it pass) is
+// answered first and its post-response processing is still pending while the measured request is handled.
+func c12RunO(o *Out, kind string, via int, scrape bool, pre, post []hkSpec, baseSec int64, overlap bool) {
+	overlap = overlap && via == 2 && !scrape
 	timecache.VerifPin(c12Now)
 	lg := &c12Log{}
 	huge := 1000 * time.Hour
@@ -241,7 +281,18 @@ func c12Run(o *Out, kind string, via int, scrape bool, pre, post []hkSpec, baseS
 	}
 	logic := &syncLogic{Logic: middleware.NewLogic(middleware.ResponseConfig{AnnounceInterval: time.Duration(baseSec) * time.Second, MinAnnounceInterval: time.Second}, spy, preH, postH),
 		done: make(chan struct{}, 16), log: lg}
-	before := len(memory.VerifDump(real))
+	if overlap {
+		logic.holdGate, logic.holdDone = make(chan struct{}), make(chan struct{}, 1)
+	}
+	countIH := func() (n int) {
+		for _, d := range memory.VerifDump(real) {
+			if d.InfoHash == c12IH {
+				n++
+			}
+		}
+		return
+	}
+	before := countIH()
 	me := bittorrent.Peer{ID: bittorrent.PeerIDFromBytes([]byte("announcer-0123456789")), Port: 6881, IP: bittorrent.IP{IP: net.IP{127, 0, 0, 1}, AddressFamily: bittorrent.IPv4}}
 
 	oErr, oMsg, oInterval, oFilled, oDisclosed := int64(0), "", int64(0), false, false
@@ -329,6 +380,33 @@ func c12Run(o *Out, kind string, via int, scrape bool, pre, post []hkSpec, baseS
 		defer func() { <-f.Stop() }()
 		src := net.IP{127, 0, 0, 1}
 		cid := udp.NewConnectionID(src, time.Unix(0, c12Now), c12Key)
+		preludeOK := true
+		if overlap {
+			src2 := net.IP{10, 7, 7, 7}
+			var p2 bytes.Buffer
+			p2.Write(udp.NewConnectionID(src2, time.Unix(0, c12Now), c12Key))
+			binary.Write(&p2, binary.BigEndian, uint32(1))
+			p2.Write([]byte{8, 8, 8, 8})
+			p2.Write(c12IH2[:])
+			p2.Write([]byte("prelude-client-54321"))
+			binary.Write(&p2, binary.BigEndian, uint64(0))
+			binary.Write(&p2, binary.BigEndian, uint64(3))
+			binary.Write(&p2, binary.BigEndian, uint64(0))
+			binary.Write(&p2, binary.BigEndian, uint32(0))
+			p2.Write([]byte{0, 0, 0, 0})
+			binary.Write(&p2, binary.BigEndian, uint32(0))
+			binary.Write(&p2, binary.BigEndian, uint32(5))
+			binary.Write(&p2, binary.BigEndian, uint16(7007))
+			lg.mute(true)
+			buf := make([]byte, 2048)
+			n := copy(buf, p2.Bytes())
+			d2, _, pan2, err2 := udp.VerifHandle(f, buf[:n], src2)
+			for i := range buf { // serve() returns the packet buffer to its pool as soon as the handler is done
+				buf[i] = 0
+			}
+			lg.mute(false)
+			preludeOK = err2 == nil && pan2 == nil && len(d2) == 1 && len(d2[0]) >= 4 && binary.BigEndian.Uint32(d2[0][:4]) == 1
+		}
 		var pkt bytes.Buffer
 		pkt.Write(cid)
 		if !scrape {
@@ -351,6 +429,24 @@ func c12Run(o *Out, kind string, via int, scrape bool, pre, post []hkSpec, baseS
 		}
 		dgs, _, pan, err := udp.VerifHandle(f, pkt.Bytes(), src)
 		logic.wait()
+		if overlap {
+			// now let the prelude request's post-response processing run; it must apply the PRELUDE request
+			close(logic.holdGate)
+			select {
+			case <-logic.holdDone:
+			case <-time.After(5 * time.Second):
+				preludeOK = false
+			}
+			found := false
+			for _, e := range memory.VerifDump(real) {
+				if e.InfoHash == c12IH2 && strings.HasPrefix(e.Key, "prelude-client-54321") {
+					found = true
+				}
+			}
+			if !found || !preludeOK {
+				lg.add(902) // the other client's announce was not applied as itself
+			}
+		}
 		if err != nil || pan != nil || len(dgs) != 1 || len(dgs[0]) < 8 {
 			oErr, oMsg, oDisclosed = 1, fmt.Sprintf("unexpected datagrams: %d panic=%v err=%v", len(dgs), pan, err), true
 			break
@@ -370,7 +466,7 @@ func c12Run(o *Out, kind string, via int, scrape bool, pre, post []hkSpec, baseS
 			oErr, oMsg, oDisclosed = 1, "unexpected action", true
 		}
 	}
-	applied := int64(len(memory.VerifDump(real)) - before)
+	applied := int64(countIH() - before)
 	lg.mu.Lock()
 	var tr []string
 	for _, v := range lg.evs {
@@ -388,7 +484,7 @@ func c12Run(o *Out, kind string, via int, scrape bool, pre, post []hkSpec, baseS
 	coq := fmt.Sprintf("CChain %d %s %s %s %d %d %s %s %s %s %d %s", via, cBool(scrape), cList(cp), cList(cq), baseSec,
 		oErr, cB([]byte(oMsg)), cList(tr), cZ(oInterval), cBool(oFilled), applied, cBool(oDisclosed))
 	o.add(Case{Coq: coq, Kind: kind,
-		In:  map[string]interface{}{"via": via, "scrape": scrape, "pre": pre, "post": post, "base": baseSec},
+		In:  map[string]interface{}{"via": via, "scrape": scrape, "pre": pre, "post": post, "base": baseSec, "overlap": overlap},
 		Obs: map[string]interface{}{"err": oErr, "msg": oMsg, "trace": evs, "interval": oInterval, "filled": oFilled, "applied": applied, "disclosed": oDisclosed}})
 }
 
@@ -400,7 +496,7 @@ func c12Replay(o *Out, in map[string]interface{}) error {
 	if err := reJSON(in["post"], &post); err != nil {
 		return err
 	}
-	c12Run(o, "replay", int(jInt(in["via"])), jBool(in["scrape"]), pre, post, jInt(in["base"]))
+	c12RunO(o, "replay", int(jInt(in["via"])), jBool(in["scrape"]), pre, post, jInt(in["base"]), jBool(in["overlap"]))
 	return nil
 }
 
@@ -421,9 +517,9 @@ func c12Stream(o *Out, rng *rand.Rand, n int) {
 			case r == 8:
 				hs = append(hs, hkSpec{K: "tag", D: int64(rng.Intn(5))})
 			case r == 9 || r == 12:
-				hs = append(hs, hkSpec{K: "rejc", Msg: msgs[rng.Intn(len(msgs))]})
+				hs = append(hs, hkSpec{K: "rejc", Msg: msgs[rng.Intn(len(msgs))], NilCtx: rng.Intn(2) == 0})
 			case r == 10 || r == 13:
-				hs = append(hs, hkSpec{K: "reji"})
+				hs = append(hs, hkSpec{K: "reji", NilCtx: rng.Intn(2) == 0})
 			default:
 				hs = append(hs, hkSpec{K: "accept"})
 			}
@@ -434,6 +530,8 @@ func c12Stream(o *Out, rng *rand.Rand, n int) {
 	fixed := [][2][]hkSpec{
 		{nil, nil},
 		{{{K: "rejc", Msg: "go away"}}, nil},
+		{{{K: "accept"}, {K: "rejc", Msg: "go away", NilCtx: true}, {K: "accept"}}, {{K: "accept"}}},
+		{{{K: "reji", NilCtx: true}, {K: "accept"}}, nil},
 		{{{K: "accept"}, {K: "reji"}, {K: "accept"}}, {{K: "accept"}}},
 		{{{K: "accept"}}, {{K: "reji"}}},
 		{{{K: "accept"}}, {{K: "accept"}, {K: "rejc", Msg: "go away"}, {K: "accept"}}},
@@ -445,10 +543,13 @@ func c12Stream(o *Out, rng *rand.Rand, n int) {
 		for _, sc := range []bool{false, true} {
 			for _, f := range fixed {
 				c12Run(o, "fixed", via, sc, f[0], f[1], 1800)
+				if via == 2 && !sc {
+					c12RunO(o, "fixed-overlap", via, sc, f[0], f[1], 1800, true)
+				}
 			}
 		}
 	}
 	for i := 0; i < n; i++ {
-		c12Run(o, "random", i%3, rng.Intn(4) == 0, gen(6, rng.Intn(3)), gen(4, 0), int64(rng.Intn(3600)+1))
+		c12RunO(o, "random", i%3, rng.Intn(4) == 0, gen(6, rng.Intn(3)), gen(4, 0), int64(rng.Intn(3600)+1), rng.Intn(3) == 0)
 	}
 }
